@@ -534,6 +534,10 @@ def fit_cases(draw, ascent=False, supplies=("u", "w", "u", "w", "both", "none"),
             edges = [edges[j] for j in kept]
             if weights is not None:
                 weights = [weights[j] for j in kept]
+            if draw(st.integers(0, 2)) > 0:
+                # no prior on w: the update's denominator of a single-member community is
+                # exactly 0 and only its guard decides what happens to a rounding residue
+                priors[1] = 0.0
     case = {
         "kind": uni["kind"], "labels": labels, "edges": edges, "weights": weights,
         "add_all_nodes": draw(st.booleans()),
